@@ -20,6 +20,7 @@ R1 = {
         M("algo/KnuthD_MC.tla", "algo/KnuthD_limb_W3L3.cfg"),
         M("algo/KnuthD_MC.tla", "algo/KnuthD_vacuity.cfg", expect_violation="NoAddBack"),
         M("algo/KnuthD_MC.tla", "algo/KnuthD_vacuity_vt.cfg", expect_violation="NoAddBack"),
+        M("algo/KnuthD_MC.tla", "algo/KnuthD_vacuity_toponly.cfg", expect_violation="NoTopOnly"),
         M("algo/KnuthD_MC.tla", "algo/KnuthD_ct_W3L3.cfg", tiers=T, workers=12),
         M("algo/KnuthD_MC.tla", "algo/KnuthD_vartime_W3L4.cfg", tiers=T, workers=12),
         M("algo/KnuthD_MC.tla", "algo/KnuthD_ct_W4L2Y2.cfg", tiers=T),
